@@ -219,6 +219,37 @@ pub fn verify<X: HS, E: FieldElement<BaseField = <X::S as Spec>::B>>(
     }
 }
 
+/// Like `verify`, but the verifier is told `declared_bound` instead of the bound the proof was built
+/// for (same domain as long as next_power_of_two(declared_bound) = bound + 1).
+pub fn verify_with_bound<X: HS, E: FieldElement<BaseField = <X::S as Spec>::B>>(
+    p: &Params,
+    declared_bound: usize,
+    proof: FriProof,
+    commitments: &[<X::H as Hasher>::Digest],
+    evaluations_at_positions: &[E],
+    positions: &[usize],
+) -> Verdict {
+    let r = catch(|| {
+        let mut coin = Coin::<X>::new(&[]);
+        let mut channel = match VChannel::<X, E>::new(proof, commitments.to_vec(), p.domain(), p.folding) {
+            Ok(c) => c,
+            Err(e) => return Verdict::ChannelError(format!("{e}")),
+        };
+        let verifier = match FriVerifier::new(&mut channel, &mut coin, p.options(), declared_bound) {
+            Ok(v) => v,
+            Err(e) => return Verdict::Reject(e),
+        };
+        match verifier.verify(&mut channel, evaluations_at_positions, positions) {
+            Ok(()) => Verdict::Accept,
+            Err(e) => Verdict::Reject(e),
+        }
+    });
+    match r {
+        Ok(v) => v,
+        Err(pn) => Verdict::Panic(pn),
+    }
+}
+
 pub fn reencode(proof: &FriProof) -> Result<FriProof, String> {
     let bytes = proof.to_bytes();
     let mut r = winter_utils::SliceReader::new(&bytes);
